@@ -38,4 +38,17 @@ PROPS = {
                  "the unique id is an abstract function in the theorems; in runs it is SHA-256 of the model's id pre-image (C08 model), compared with the crate's only through equality patterns"],
         assumes=["uncompressed public keys and multi-leaf tap trees are not generated (C07's F9)"],
     ),
+    "C08": dict(
+        n_quick=40, n_thorough=400, audit=6, audit_maxlen=9000,
+        rule="lock time: every assignment of {none,time,height,both} to 0..3 inputs (0..4 thorough) x fallback present/absent with boundary and random values; "
+             "from_tx/extract_tx over the 9-bit transaction feature lattice (pegin, explicit/confidential issuance, coinbase index, confidential / partially blinded / "
+             "explicit outputs with and without nonces, script_sig and witnesses); extract_tx of randomly populated PSETs; unique id before/after the addition of each "
+             "of the 73 optional/keyed fields; distinct = distinct case text; non-trivial = at least one optional field or requirement beyond the mandatory ones",
+        trusted=["transactions are records of fields (their consensus encoding is C01's model); the txid is an abstract function of the transaction without witnesses "
+                 "(flags folded into the output index, issuance present iff non-null, as TxIn's encoder writes them); in runs it is SHA-256 of a canonical text and only "
+                 "equality patterns are compared with the crate's ids",
+                 "BIP370 is transcribed from the BIP text into Model/PsetTx.v `bip370` (and independently into harness/src/c08.rs)",
+                 "uncompressed ECDH/blinding keys are outside the model (the nonce is the key's compressed encoding)"],
+        assumes=[],
+    ),
 }
